@@ -11,22 +11,22 @@ import (
 var reStrLen = regexp.MustCompile(`\(str\.len ([^\s()]+|\([^()]*\))\)`)
 
 type ReplayRecord struct {
-	Property    string            `json:"property"`
-	Obligation  string            `json:"obligation"`
-	Kind        string            `json:"kind"`
-	Function    string            `json:"function"`
-	Clause      string            `json:"clause"`
-	Where       string            `json:"where"`
-	Solver      string            `json:"solver_status"`
-	Backend     string            `json:"backend"`
-	SolverOut   string            `json:"solver_output"`
-	SMTFile     string            `json:"smt_file"`
-	Witness     map[string]string `json:"witness,omitempty"`
-	ReplayCmd   string            `json:"replay_cmd,omitempty"`
-	ReplayTest  string            `json:"replay_test,omitempty"`
-	ReplayOut   string            `json:"replay_output,omitempty"`
-	Reproduced  bool              `json:"reproduced"`
-	Note        string            `json:"note"`
+	Property   string            `json:"property"`
+	Obligation string            `json:"obligation"`
+	Kind       string            `json:"kind"`
+	Function   string            `json:"function"`
+	Clause     string            `json:"clause"`
+	Where      string            `json:"where"`
+	Solver     string            `json:"solver_status"`
+	Backend    string            `json:"backend"`
+	SolverOut  string            `json:"solver_output"`
+	SMTFile    string            `json:"smt_file"`
+	Witness    map[string]string `json:"witness,omitempty"`
+	ReplayCmd  string            `json:"replay_cmd,omitempty"`
+	ReplayTest string            `json:"replay_test,omitempty"`
+	ReplayOut  string            `json:"replay_output,omitempty"`
+	Reproduced bool              `json:"reproduced"`
+	Note       string            `json:"note"`
 }
 
 // lemmaObligations: global lemmas tagged with prop.
@@ -94,7 +94,11 @@ func (p *Prog) lemmaObligation(f *GlobalFact) (o *Obligation, err error) {
 	facts = append(facts, st.facts...)
 	for _, a := range p.con.Facts {
 		if a.Kind == "axiom" {
-			facts = append(facts, env.evalBool(a.Expr))
+			aenv := &SpecEnv{vc: vc, st: st, old: st, vars: map[string]Term{}, pkg: vc.pkg}
+			if pk, ok := p.pkgs[a.Pkg]; ok {
+				aenv.pkg = pk.Types
+			}
+			facts = append(facts, aenv.evalBool(a.Expr))
 		}
 	}
 	o = &Obligation{Name: "lemma/" + f.Name, Kind: "lemma", Props: f.Props, Func: "::lemma/" + f.Name, Text: f.Text, Where: f.Where, Facts: facts, Goal: g, Decls: vc.decls}
